@@ -77,7 +77,7 @@ TRUSTED = [
     "float sqrt/factorial normalisation up to rounding (1e-9)",
 ]
 ASSUMPTIONS = ["circuits <= 5 user modes per level, total modes <= 10, <= 4 photons in the correspondence check",
-               "sessions: <= 2 long-lived Simulators plus one fresh Simulator per call, <= 9 calls, U_full <= 12 modes; "
+               "sessions: <= 2 long-lived Simulators plus one fresh Simulator per call, <= 12 calls, U_full <= 12 modes; "
                "the client never writes into a returned array"]
 
 KINDS = ["short", "long0", "longp", "full", "fullloss", "more", "fewer", "neg", "neg_keep",
@@ -1341,7 +1341,7 @@ def run(ctx: Ctx) -> None:
                 "in a circuit with a beam splitter or unitary block; distinct = distinct (program, request).  "
                 "Sessions (directed, then random): one or two long-lived Simulators, the circuit edited in place "
                 "between calls (heralds, heralded / lossy sub-circuits, components, loss, Parameter.set), .circuit "
-                "re-assigned, <= 9 calls each judged on the circuit as it is at the time and against a fresh "
+                "re-assigned, <= 12 calls each judged on the circuit as it is at the time and against a fresh "
                 "Simulator; every result handed out is retained and re-checked after every later step")
     k = 0
     for case in corpus(ctx):
